@@ -700,6 +700,30 @@ def concrete_attr(it, py, name):
                 target.attrs['args'] = VTuple(list(a))
             return VNone
         return VFunc(exc_init, 'Exception.__init__')
+    if isinstance(py, tuple) and py and py[0] == 'super':
+        start, objref = py[1], py[2]
+        cls = it.ctx.cell(objref).cls
+        mro = list(cls.__mro__)
+        for k in mro[mro.index(start) + 1:]:
+            if name in k.__dict__ and k is not object:
+                qn = '%s.%s.%s' % (k.__module__, k.__qualname__, name)
+                return VFunc(lambda it, a, kw, qn=qn: it.engine.call_inline(
+                    it, qn, [objref] + a, kw), qn)
+        if name == '__init__':
+            return VFunc(lambda it, a, kw: VNone, 'object.__init__')
+        raise Unsupported('super().%s' % name)
+    if it.engine.is_repo_instance(py) and not isinstance(py, tuple):
+        # attribute / method of a constant repository object (descriptor)
+        for k in type(py).__mro__:
+            if name in k.__dict__ and k is not object:
+                raw = k.__dict__[name]
+                import types as _t
+                if isinstance(raw, _t.FunctionType):
+                    qn = '%s.%s.%s' % (k.__module__, k.__qualname__, name)
+                    return VFunc(lambda it, a, kw, qn=qn:
+                                 it.engine.call_inline(
+                                     it, qn, [VConc(py)] + a, kw), qn)
+                break
     if isinstance(py, tuple) and py and py[0] == 'typeof' and \
             name == '__name__':
         return VStr(it.ctx.fresh_str('typename'), False)
@@ -715,6 +739,13 @@ def concrete_dict_method(it, d, name, args, kwargs):
         return concrete_dict_get(it, d, args[0], default, False)
     if name == 'keys':
         return VConc(tuple(d.keys()))
+    if name == 'copy':
+        return it.ctx.alloc(DictCell({k: it.engine.wrap_global(it, v)
+                                      for k, v in d.items()}))
+    if name == 'items':
+        return it.ctx.alloc(ListCell([
+            VTuple([from_py(k), it.engine.wrap_global(it, v)])
+            for k, v in d.items()]))
     raise Unsupported('dict.%s on module constant' % name)
 
 
@@ -760,6 +791,14 @@ def call_concrete(it, py, args, kwargs):
         return builtin_isinstance(it, args[0], args[1])
     if py is int:
         return builtin_int(it, args, kwargs)
+    if py is repr:
+        v = args[0]
+        if isinstance(v, VRef) and isinstance(ctx.cell(v), ObjCell):
+            for k in ctx.cell(v).cls.__mro__:
+                if '__repr__' in k.__dict__ and k is not object:
+                    qn = '%s.%s.__repr__' % (k.__module__, k.__qualname__)
+                    return it.engine.call_inline(it, qn, [v], {})
+        return VStr(ctx.fresh_str('repr'), False)
     if py is str:
         if not args:
             return VStr('', False)
@@ -791,7 +830,10 @@ def call_concrete(it, py, args, kwargs):
     if py is dict:
         return builtin_dict(it, args, kwargs)
     if py is type:
-        return VConc(('typeof', args[0].tname))
+        a0 = args[0]
+        if isinstance(a0, VRef) and isinstance(ctx.cell(a0), ObjCell):
+            return VConc(ctx.cell(a0).cls)
+        return VConc(('typeof', a0.tname))
     if py is iter:
         return args[0]
     if py is super:
@@ -800,6 +842,9 @@ def call_concrete(it, py, args, kwargs):
                 isinstance(args[0].py, type) and \
                 issubclass(args[0].py, BaseException):
             return VConc(('super-exc', args[1]))
+        if len(args) == 2 and isinstance(args[0], VConc) and \
+                isinstance(args[0].py, type):
+            return VConc(('super', args[0].py, args[1]))
         raise Unsupported('super()')
     if py is getattr:
         name = const_key(args[1])
@@ -810,6 +855,16 @@ def call_concrete(it, py, args, kwargs):
         return VNone
     if isinstance(py, type) and issubclass(py, BaseException):
         return it.engine.make_exception(it, py, args, kwargs)
+    if isinstance(py, type) and (py.__module__ or '').startswith('pydiffx'):
+        return it.engine.instantiate(it, py, args, kwargs)
+    import copy as _copy
+    if py is _copy.deepcopy:
+        v = args[0]
+        if isinstance(v, VConc) and isinstance(v.py, dict) and not v.py:
+            return ctx.alloc(DictCell({}))
+        if isinstance(v, (VInt, VBool, VStr)) or v is VNone:
+            return v
+        raise Unsupported('deepcopy of %r' % (v,))
     if isinstance(py, tuple) and py and py[0] == 'lambda':
         return call_lambda(it, py[1], args)
     raise Unsupported('call of %r' % (py,))
